@@ -31,7 +31,8 @@ structure Script where
   panics : Bool := false            -- the run function panics
   failed : Bool := false            -- … returns a non-nil error
   bad : Bool := false               -- IsBadRequest of that error
-  late : Bool := false              -- a deadline was set and the function was done after it
+  deadline : Bool := false          -- Execution.Timeout > 0: the call has a deadline of its own
+  late : Bool := false              -- … and the function was done after it
   ctxDone : Bool := false           -- the caller's own context has ended
   ignoreInterrupts : Bool := false
   classifier : Bool := true         -- IsErrInterrupt's verdict (true when unset)
@@ -40,7 +41,7 @@ structure Script where
 /-- the precedence order of the classification chain -/
 def Script.kind (sc : Script) : Kind :=
   if sc.failed && sc.bad then .badRequest
-  else if sc.late then .timeout
+  else if sc.deadline && sc.late then .timeout
   else if sc.failed && sc.ctxDone && !sc.ignoreInterrupts && sc.classifier then .interrupt
   else if sc.failed then .failure
   else .success
@@ -48,6 +49,7 @@ def Script.kind (sc : Script) : Kind :=
 inductive Ev where
   | shortCircuit | reject | invoked
   | ran (k : Kind)
+  | vetoed               -- ghost marker: the opener's veto refused the call (nothing is delivered to the collectors)
   deriving Repr, DecidableEq
 
 /-- how a call ended -/
@@ -69,6 +71,7 @@ inductive Pc where
   | aFO | aFC | aFlag | gFO | askAllow        -- allowNewRun (IsOpen inlined)
   | deliverShort                               -- CmdMetricCollector.ErrShortCircuit
   | askPrevent
+  | vetoed                                     -- the opener said Prevent: the refusal is returned, no event
   | gaugeAdd                                   -- concurrentCommands.Add(1)
   | loadLimit (obs : Int)                      -- MaxConcurrentRequests.Get()
   | deliverReject
@@ -85,6 +88,7 @@ inductive Pc where
 structure Local where
   job : Job
   pc : Pc
+  sawOpen : Option Bool := none   -- ghost: what IsOpen() answered at admission
   deriving Repr, DecidableEq
 
 structure Shared where
@@ -111,13 +115,15 @@ def step (tid : Nat) (s : Shared) (l : Local) : Option (Shared × Local) :=
   let ev (e : Ev) (pc : Pc) : Option (Shared × Local) := some ({ s with events := s.events ++ [(tid, e)] }, { l with pc := pc })
   match l.pc with
   -- admission
-  | .aFO => if s.t.forceOpen then goto .gFO else goto .aFC
-  | .aFC => if s.t.forcedClosed then goto .askPrevent else goto .aFlag
-  | .aFlag => if s.t.isOpen then goto .gFO else goto .askPrevent
+  | .aFO => if s.t.forceOpen then some (s, { l with pc := .gFO, sawOpen := some true }) else goto .aFC
+  | .aFC => if s.t.forcedClosed then some (s, { l with pc := .askPrevent, sawOpen := some false }) else goto .aFlag
+  | .aFlag => if s.t.isOpen then some (s, { l with pc := .gFO, sawOpen := some true })
+              else some (s, { l with pc := .askPrevent, sawOpen := some false })
   | .gFO => if s.t.forceOpen then goto .deliverShort else goto .askAllow
   | .askAllow => if sc.allow then goto .askPrevent else goto .deliverShort
   | .deliverShort => ev .shortCircuit (.done .shed)
-  | .askPrevent => if sc.prevent then goto (.done .shed) else goto .gaugeAdd
+  | .askPrevent => if sc.prevent then goto .vetoed else goto .gaugeAdd
+  | .vetoed => ev .vetoed (.done .shed)
   -- bulkhead
   | .gaugeAdd =>
     let g := s.gauge + 1
@@ -174,11 +180,79 @@ def resultOf (c : Config Shared Local) (i : Nat) : Option Res :=
   | some { pc := .done r, .. } => some r
   | _ => none
 
-/-- run events delivered for thread `i` (everything but the `invoked` marker) -/
+/-- run events delivered to the collectors for thread `i` (everything but the ghost markers) -/
 def runEventsOf (c : Config Shared Local) (i : Nat) : List Ev :=
-  (c.shared.events.filter fun e => e.1 == i && e.2 != .invoked).map (·.2)
+  (c.shared.events.filter fun e => e.1 == i && e.2 != .invoked && e.2 != .vetoed).map (·.2)
 
 def invokedCount (c : Config Shared Local) (i : Nat) : Nat :=
   (c.shared.events.filter fun e => e.1 == i && e.2 == .invoked).length
+
+end CM.Conc.Run
+
+/-! ### projections onto the two partial models -/
+namespace CM.Conc.Run
+open CM.Conc
+
+/-- what Conc/Call's thread would be asked -/
+def toCallScript (sc : Script) : Call.Script :=
+  { allow := sc.allow, prevent := sc.prevent, fails := sc.kind == .failure || sc.kind == .timeout,
+    shouldOpen := sc.shouldOpen, shouldClose := sc.shouldClose }
+
+def toCallJob : Job → Call.Job
+  | .call sc => .call (toCallScript sc)
+  | .open => .open
+  | .close => .close
+
+/-- the whole-call model seen through Conc/Call: the bulkhead steps are "about to invoke", the classification and the
+    delivery are "about to look at the state", the deferred decrement is "done"; a call that Conc/Call has no outcome
+    for (refused by the bulkhead, panicked, bad request, interrupt) is a Conc/Call thread that simply takes no further
+    step -/
+def toCallPc : Pc → Call.Pc
+  | .aFO => .aFO | .aFC => .aFC | .aFlag => .aFlag | .gFO => .gFO | .askAllow => .askAllow
+  | .deliverShort => .shedNow
+  | .askPrevent => .askPrevent
+  | .vetoed => .shedNow
+  | .gaugeAdd | .loadLimit _ | .deliverReject | .invoke => .invoke
+  | .classify | .deliver _ => .pFO
+  | .pFO _ => .pFO | .pFC _ => .pFC | .pFlag _ => .pFlag
+  | .oFC _ => .oFC | .oFO _ => .oFO | .oFC2 _ => .oFC2 | .oFlag _ => .oFlag | .askShouldOpen _ => .askShouldOpen
+  | .trans tl _ => .trans tl
+  | .gaugeDec r | .done r =>
+    match r with
+    | .shed | .manual => .done
+    | .rejected => .invoke
+    | .panicked => .pFO
+    | .ran k => if k.looks then .done else .pFO
+
+def toCallLocal (l : Local) : Call.Local := { job := toCallJob l.job, pc := toCallPc l.pc, sawOpen := l.sawOpen }
+
+def toCallEv : Nat × Ev → Option (Nat × Call.Outcome)
+  | (i, .shortCircuit) => some (i, .shed)
+  | (i, .vetoed) => some (i, .shed)
+  | (i, .invoked) => some (i, .ran)
+  | _ => none
+
+def toCallShared (s : Shared) : Call.Shared := { t := s.t, events := s.events.filterMap toCallEv }
+
+def toCall (c : Config Shared Local) : Config Call.Shared Call.Local :=
+  { shared := toCallShared c.shared, locals := c.locals.map toCallLocal }
+
+/-- … and through Conc/Gauge: everything before the increment is "has not started", everything between the function's
+    end and the deferred decrement is "leaving" -/
+def toGaugeLocal (l : Local) : Gauge.Local :=
+  match l.pc with
+  | .loadLimit obs => .incd obs
+  | .deliverReject => .rejecting
+  | .invoke => .running
+  | .classify | .deliver _ | .pFO _ | .pFC _ | .pFlag _ | .oFC _ | .oFO _ | .oFC2 _ | .oFlag _ | .askShouldOpen _ => .leaving
+  | .trans _ after => (match after with | .manual => .idle | _ => .leaving)
+  | .gaugeDec r => (match r with | .rejected => .rejecting | _ => .leaving)
+  | .done r => (match r with | .rejected => .finished false | .ran _ | .panicked => .finished true | _ => .idle)
+  | _ => .idle
+
+def toGaugeShared (s : Shared) : Gauge.Shared := { gauge := s.gauge, limit := s.limit, region := s.region }
+
+def toGauge (c : Config Shared Local) : Config Gauge.Shared Gauge.Local :=
+  { shared := toGaugeShared c.shared, locals := c.locals.map toGaugeLocal }
 
 end CM.Conc.Run
